@@ -255,6 +255,9 @@ func (U *Universe) sortOf(t types.Type) string {
 		U.extraSorts["Any"] = true
 		return "Any"
 	case *types.Struct:
+		if t.NumFields() == 0 {
+			return "Unit"
+		}
 		panic("anonymous struct value: " + t.String())
 	case *types.Tuple:
 		return "Tuple"
@@ -303,6 +306,8 @@ func (U *Universe) zero(t types.Type) string {
 			}
 		}
 		return "ErrNil"
+	case "Unit":
+		return "unit"
 	case "Fn":
 		return "Fn.nil"
 	case "Any":
@@ -514,6 +519,7 @@ func (U *Universe) prelude() string {
 	for _, si := range late {
 		emit(si)
 	}
+	b.WriteString("(declare-datatypes ((Unit 0)) (((unit))))\n")
 	b.WriteString("(declare-datatypes ((Fuel 0)) (((FZ) (FS (FS.p Fuel)))))\n")
 	b.WriteString("; ---- sequences\n")
 	for _, s := range seqNames {
